@@ -1410,10 +1410,25 @@ type seekStep struct {
 	code   int16
 }
 
+// slowSeeks counts the seek scenarios that ran into the connection deadline: on a Conn left
+// misaligned by an earlier step every scenario would wait for it, so after three of them the
+// remaining scenarios are reported as not run (the check then already has its failing cases).
+var slowSeeks int
+
 func runSeek(steps []seekStep, extra []string) {
+	if slowSeeks >= 3 {
+		emit("seek", "-", "NOT-RUN-after-3-scenarios-hit-the-deadline", append([]string{"not-run"}, extra...))
+		return
+	}
+	t0 := time.Now()
+	defer func() {
+		if time.Since(t0) > 2*time.Second {
+			slowSeeks++
+		}
+	}()
 	c, p := newPeer("seek-topic", 3)
 	defer func() { c.Close(); <-p.done }()
-	c.SetDeadline(time.Now().Add(20 * time.Second))
+	c.SetDeadline(time.Now().Add(3 * time.Second))
 	args := make([]string, len(steps))
 	res := make([]string, len(steps))
 	feats := map[string]bool{}
